@@ -9,6 +9,8 @@ AST (python tuples)
         | ('assignf', x, k, e[, array?]) | ('cassignf', x, k, op, e[, array?])
         | ('if', c, blockA, blockB) | ('while', c, block) | ('for', x, ity, lo, hi, block[, inclusive?, step expr|None]) | ('match', e, ity, [(int, block)], default_block|None)
         | ('break',) | ('continue',) | ('return', e|None)
+        | ('fnlit', x, y, ity)   (let v<x> := fn(v<y>: T) -> T { return v<y>; };  a function literal that is never called:
+                                  no effect in the reference (SSkip), but every later statement of the function comes after it)
         | ('print', [es]) | ('expr', e) | ('block', block)
   block: list of stmt.  fn: dict(params=[(x, ty)], ret=ty, body=block[, method=True]).  prog: list of fn, last is main.
   A method is a function whose first parameter (a struct, passed by value) is written as the receiver: `fn (v1: S0) m3(v2: i32)`,
@@ -134,6 +136,7 @@ def r_stmt(s, ind):
         if s[4] is not None:
             out += ["%s    _ => {" % p] + r_block(s[4], ind + 2) + ["%s    }" % p]
         return out + ["%s}" % p]
+    if k == "fnlit": return ["%slet v%d := fn(v%d: %s) -> %s { return v%d; };" % (p, s[1], s[2], s[3], s[3], s[2])]
     if k == "break": return [p + "break;"]
     if k == "continue": return [p + "continue;"]
     if k == "return": return [p + ("return;" if s[1] is None else "return %s;" % r_expr(s[1]))]
@@ -242,6 +245,7 @@ def c_stmt(s):
         for v, b in reversed(s[3]):
             chain = "(SIf (EBin Eq (EVar %d) (ELit %s (%d)%%Z)) %s %s)" % (tmp, c_ity(s[2]), v, c_block(b), chain)
         return "(SBlock (SSeq (SLet %d (TInt %s) %s) %s))" % (tmp, c_ity(s[2]), c_expr(s[1]), chain)
+    if k == "fnlit": return "SSkip"
     if k == "break": return "SBreak"
     if k == "continue": return "SContinue"
     if k == "return": return "(SReturn None)" if s[1] is None else "(SReturn (Some %s))" % c_expr(s[1])
@@ -326,6 +330,8 @@ class Gen:
         self.refs = True                  # parameters passed by mutable reference (&'S), written through by the callee
         self.strings = True               # str values: literals, concatenation, == / !=, parameters, results, printing
         self.enums = True                 # enum values: variants, == / !=, match, parameters, results
+        self.fnlits = True                # function literals that are declared and never called (native only: the wasm back end
+                                          # rejects function literals, an open finding of C13)
         self.refparams = set()            # by-reference parameters of the function being generated
         # the borrow checker keeps a mutable borrow alive to the end of the statement: within one statement a variable that is
         # lent (&'x) may be read before the call (left to right) but is not mentioned after it, and is not the target of the
@@ -578,6 +584,7 @@ class Gen:
         sassignable = [(x, ty) for x, ty in assignable if is_struct(ty)]
         if sassignable: choices += ["assignf"] * 3
         if self.structs and r.random() < 0.5: choices += ["dump"] * 2
+        if self.fnlits and r.random() < 0.25: choices += ["fnlit"]
         if d > 0 and self.budget > 3:
             choices += ["if"] * 3 + ["while"] * 2 + ["block"] + ["for"] * 2 + ["match"] * 2
         if inloop and r.random() < 0.15: choices += ["break", "continue"]
@@ -593,6 +600,9 @@ class Gen:
             e = self.expr(t, env, r.randint(0, 3))
             env[-1][x] = (t, const)
             return ("let", x, t, e, const)
+        if c == "fnlit":
+            self.feat("function-literal")
+            return ("fnlit", self.fresh(), self.fresh(), r.choice(self.itys))
         if c == "dump":
             # every component of one aggregate (a copy that drops or garbles a tail component shows here)
             svs = [(x, ty) for sc in env for x, (ty, _) in sc.items() if is_struct(ty)]
